@@ -90,13 +90,38 @@ def _okb_status():
         return "unknown"
 
 
-def closer_order(repo=REPO):
-    """The order of the three calls cmd/server/main.go makes after the signal arrived. -> (['prepare','net','server'], [missing])"""
+def _closer_order_ast(ctx, repo):
+    """What the translator (harness/cmd/gen2coq closer.go) read from the syntax tree of cmd/server's main(): the shutdown steps
+    after the wait, followed through local closures and helper functions. -> list | None (not recognised / not available)"""
+    try:
+        from . import gen
+        info = gen.summary(ctx) if (ctx is not None and Path(repo) == REPO) else None
+        if info is None or "closer_order" not in info:
+            od = (ctx.work if ctx is not None else vcheck.WORKROOT / "svtie") / "gen-closer"
+            ok, _log = gen.run_tool(repo, od)
+            info = json.loads((Path(od) / "summary.json").read_text()) if ok else None
+        order = (info or {}).get("closer_order")
+        if order and not (info or {}).get("closer_reasons") and all(k in ("prepare", "net", "server") for k in order):
+            return list(order)
+    except Exception:  # noqa
+        pass
+    return None
+
+
+def closer_order(repo=REPO, ctx=None):
+    """The order of the three calls cmd/server/main.go makes after the signal arrived. -> (['prepare','net','server'], [missing])
+    First from the syntax tree (wrapping the calls in a closure / helper, or the wait in a helper, does not hide them); when
+    that shape is not recognised, by the text of the three calls after `<-sigchan` as before; a call found by neither is missing."""
     try:
         spec = json.loads(ANCHORS.read_text())["closer_order"]
         text = (Path(repo) / spec["file"]).read_text()
     except Exception as ex:  # noqa
         return ["prepare", "net", "server"], [dict(id="closer_order", label="*", file="cmd/server/main.go", why="unreadable: %r" % ex)]
+    order = _closer_order_ast(ctx, repo)
+    if order is not None:
+        missing = [dict(id="closer_order." + k, label=k, file=spec["file"], why="main() does not do this step after the wait (read from the syntax tree)")
+                   for k in spec["calls"] if k not in order]
+        return order, missing
     at = text.find(spec["after"])
     missing = []
     if at < 0:
@@ -127,7 +152,7 @@ def build(ctx):
         ins = instrument.instrument(ANCHORS, work, REPO)
     except Exception as ex:  # noqa
         ins = dict(overlay={}, replaces={}, placed=[], missing=[dict(id="*", label="*", file="*", why="instrumenter failed: %r" % ex)], sentinels=[], log=[])
-    order, omiss = closer_order()
+    order, omiss = closer_order(ctx=ctx)
     ins["missing"] = list(ins["missing"]) + omiss
     ov = work / "overlay.json"
     ov.write_text(json.dumps({"Replace": ins["overlay"]}))
